@@ -399,7 +399,18 @@ def attr_slice(classes, cls, attr):
           tg = st.targets if isinstance(st, ast.Assign) else [st.target] if isinstance(st, (ast.AugAssign, ast.AnnAssign)) else []
           for t in tg:
             if any(isinstance(z, ast.Attribute) and isinstance(z.value, ast.Name) and z.value.id == 'self' and z.attr in names for z in ast.walk(t)):
-              out.append('%s.%s: %s' % (c, b.name, ast.unparse(st))); break
+              out.append('%s.%s: %s' % (c, b.name, ast.unparse(st)))
+              # every EARLIER statement of the same function that (re)binds a name the stored value is computed from is part
+              # of the definition too: `t_external = np.clip(t_external, ...)` one line above `self._t_external = t_external`
+              # must not leave the pinned text unchanged
+              rhs = {z.id for z in ast.walk(getattr(st, 'value', None) or ast.Constant(0)) if isinstance(z, ast.Name)}
+              for e in ast.walk(b):
+                if e is st or getattr(e, 'lineno', 10**9) >= st.lineno: continue
+                et = e.targets if isinstance(e, ast.Assign) else [e.target] if isinstance(e, (ast.AugAssign, ast.AnnAssign, ast.For, ast.NamedExpr)) else \
+                     [i.optional_vars for i in e.items if i.optional_vars is not None] if isinstance(e, ast.With) else []
+                if any(isinstance(z, ast.Name) and isinstance(z.ctx, ast.Store) and z.id in rhs for x in et for z in ast.walk(x)):
+                  out.append('%s.%s: (earlier binding) %s' % (c, b.name, ast.unparse(e).split('\n')[0]))
+              break
   return out
 
 
